@@ -217,6 +217,9 @@ func layoutJudge(env *hx.Env, m layoutMeta) (hx.Verdict, string) {
 	}
 	// the file belongs to the ordinary build and compiles there (T16)
 	if ok, _, raw := pg.Build(o.Dir); !ok {
+		if raw == pg.BuildTimeout {
+			return hx.Verdict{OK: true, Inconclusive: true}, "build-timeout"
+		}
 		return hx.Failf(P+"|does-not-build", "%s\n--- output ---\n%s", raw, o.Out), "does-not-build"
 	}
 	// sibling files untouched (C17 / C15)
